@@ -18,11 +18,14 @@ Part 2: the functional layer (Model/C04Key, C04Classify, C04Sort).
                                   `clz(a ^ b)/8` and `8 - ctz(a)/8` are the LCP contributions the sorter adds
   * `subjobs_write_disjoint`, `subjobs_order_irrelevant`   bucket ranges are disjoint; the arrays do
                                   not depend on the order in which the sub-jobs run
+  * `sample_sort_step_lemma`      buckets sorted with exact inner LCPs ⇒ after `ps5_sample_sort_lcp` the whole
+                                  range is sorted with exact LCPs
   * OPEN: the end-to-end theorem about `sortM` (statement below)
 -/
 import TlxVerif.Proofs.C04ProtoInv
 import TlxVerif.Proofs.C04Str
 import TlxVerif.Proofs.C04Assemble
+import TlxVerif.Proofs.C04Step
 import TlxVerif.Model.C04Sort
 namespace TlxVerif.C04
 
@@ -450,11 +453,22 @@ theorem subjobs_order_irrelevant {α} [Inhabited α] (results : List (List α)) 
 
 example : applyWrites [(2, [7, 8]), (0, [5, 6])] [0, 0, 0, 0] = [5, 6, 7, 8] := by decide
 
-/-- what a correct answer for `input` is: permutation, sorted, LCP array of the same length whose
-entries 1.. are the LCPs of neighbours -/
-def SortedLcp (input : List Str) (r : Res) : Prop :=
-  r.out.Perm input ∧ r.out.Pairwise (fun a b => strLe a b = true) ∧ r.lcp.length = r.out.length ∧
-  ∀ i, 0 < i → i < r.out.length → r.lcp[i]? = some (lcp ((r.out[i - 1]?).getD []) ((r.out[i]?).getD []))
+/-- **The base sorter specification is satisfiable**: `baseSort` (the model's stand-in for
+`insertion_sort`, property C03) returns a sorted permutation with exact LCPs. -/
+theorem base_sorter_good (strs : List Str) : SortedLcp strs (baseSort strs) := baseSort_good strs
+
+/-- **Step lemma of the sample sort.**  Let `rs` be the results of the `2s+1` buckets of one step
+(`<`/`=` alternating): every bucket sorted with exact inner LCPs (`lcpOk`), all strings NUL-free with
+common prefix `p` (`InRange`), strings of different buckets strictly ordered by their keys at depth
+`p.length`, every odd bucket holding strings whose key is the splitter `get_splitter(b/2)`.  Then
+`ps5_sample_sort_lcp` runs without an out-of-bounds access and leaves the whole range sorted with
+exact LCPs. -/
+theorem sample_sort_step_lemma (c : Classifier) (useCalc : Bool) (p : Str) (rs : List Res)
+    (hb : BucketsOk (splOf c useCalc) p 0 rs) {l : List Nat}
+    (h : lcpPass c useCalc (rs.map (·.out)).flatten (rs.map (·.lcp)).flatten p.length
+          (boundsOf (rs.map (·.out.length))) = .ok l) :
+    lcpOk (rs.map (·.out)).flatten l ∧ (rs.map (·.out)).flatten.Pairwise (fun a b => strLe a b = true) :=
+  lcpPass_good c useCalc p rs hb h
 
 /-- the end-to-end statement of the functional layer: for every threshold tuning, big/small
 decision, sample and pivot choice the model returns a correct answer and never reads out of bounds -/
@@ -463,7 +477,8 @@ def sortAll_correct_statement : Prop :=
     (sortAll env fuel strs = .ok r → SortedLcp strs r) ∧ sortAll env fuel strs ≠ .error .oob
 -- OPEN: sortAll_correct_statement — proved so far: the key/LCP arithmetic every step relies on (`key_*`),
 --   disjointness and order independence of the sub-job ranges; missing: `build`/`findBkt` = lower-bound
---   classification, the induction over the recursion (step lemma on the flat LCP pass, MKQS, insertion_sort_cache).
+--   classification (to discharge `BucketsOk` of the step lemma), the MKQS / insertion_sort_cache lemmas and the
+--   induction over the recursion that combines them.
 --   The model is tied to the implementation by the correspondence on order, LCPs and classifier internals.
 
 end TlxVerif.C04
